@@ -650,6 +650,74 @@ def fam_static_byref(tier, rng):
 FAMILIES.append(fam_static_byref)
 
 
+def fam_static_order(tier, rng):
+    """ordinary and STATIC procedures (SUB / FUNCTION) side by side in every source order: the ordinary ones start with fresh
+    locals at every call (read before they are written), the STATIC ones keep theirs - whichever is defined first"""
+    out = []
+    kinds = [("sub", False), ("sub", True), ("fun", False), ("fun", True)]
+    for order in itertools.permutations(range(4), 4):
+        if tier == "quick" and rng.random() < 0.5:
+            continue
+        b = B()
+        subs = []
+        names = {}
+        for j in order:
+            kind, st = kinds[j]
+            nm = ("S" if kind == "sub" else "F") + ("T" if st else "O")
+            cnt = var("CNT", "I")
+            arr = idx("LA", "I", [lit("I", 1)])
+            body = [b.dim("LA", "I", [dimspec(0, 2)]), b.let(cnt, bin_("+", cnt, lit("I", 1))), b.let(arr, bin_("+", arr, lit("I", 10))),
+                    b.print(lit("$", nm), cnt, arr)]
+            if kind == "sub":
+                subs.append(sub(nm, [], body, static=st))
+            else:
+                subs.append(fun(nm, "I", [], body + [b.let(var(nm, "I"), cnt)], static=st))
+            names[j] = (kind, nm)
+        main = []
+        for rnd in range(3):
+            for j in range(4):
+                kind, nm = names[j]
+                if kind == "sub":
+                    main.append(b.call(nm, []))
+                else:
+                    fc = fcall(nm, "I", [], 0)
+                    stt = b.print(lit("$", "r"), fc)
+                    fc["sid"] = stt["id"]
+                    main.append(stt)
+        out.append({"fam": "static-order:" + "".join(str(x) for x in order), "prog": prog(main, subs)})
+    # two by-reference arguments where the place of the first is computed from the second (Take Q(I), I): the place is
+    # the one named when the call was made, whatever the callee does to I
+    for t in ("I", "$"):
+        for kind in ("sub", "fun"):
+            for callee_sets in ("both", "index-only", "elem-only"):
+                b = B()
+                i = var("I", "I")
+                x, y = var("X", t), var("Y", "I")
+                body = []
+                if callee_sets in ("both", "elem-only"):
+                    body.append(b.let(x, v1(t)))
+                if callee_sets in ("both", "index-only"):
+                    body.append(b.let(y, bin_("+", y, lit("I", 1))))
+                body.append(b.print(lit("$", "in"), x, y))
+                arg1 = idx("AR", t, [i])
+                main = [b.dim("AR", t, [dimspec(0, 3)]), b.let(i, lit("I", 1)), b.let(idx("AR", t, [lit("I", 1)]), v0(t))]
+                if kind == "sub":
+                    main.append(b.call("TAKE", [arg1, i]))
+                    subs = [sub("TAKE", [("X", t), ("Y", "I")], body)]
+                else:
+                    fc = fcall("TAKEF", "I", [arg1, i], 0)
+                    stt = b.print(lit("$", "r"), fc)
+                    fc["sid"] = stt["id"]
+                    main.append(stt)
+                    subs = [fun("TAKEF", "I", [("X", t), ("Y", "I")], body + [b.let(var("TAKEF", "I"), lit("I", 5))])]
+                main.append(b.print(lit("$", "after"), i, idx("AR", t, [lit("I", 0)]), idx("AR", t, [lit("I", 1)]), idx("AR", t, [lit("I", 2)])))
+                out.append({"fam": "args-place-from-later-arg:%s/%s/%s" % (t, kind, callee_sets), "prog": prog(main, subs)})
+    return out
+
+
+FAMILIES.append(fam_static_order)
+
+
 def cases(tier, seed):
     rng = random.Random(seed)
     out = []
